@@ -105,6 +105,9 @@ def run(pid, tier):
                 if bad:
                     chk.violation("result of %s(%s) differs when the first use in a process is concurrent" % (op, bad[0][0]), dict(rep_, observed=bad[0][1], cold=cold[(op, bad[0][0])]))
                     break
+        # the construction API of the weighted graph keeps what it is given: behaviours of spec/WGraphApi.tla, the caller's slices watched
+        import chk_wgraph
+        chk_wgraph.api_automaton(chk, binary, sc, tier, purity_pid=True)
         # attribute race reports to scenarios
         races = {}
         cur = None
